@@ -130,6 +130,11 @@ theorem C08_injective_on_table {L τ : Type} (S : Scheme L τ) (hS : S.rules = r
     (h : nameOf S e₁ = nameOf S e₂) : e₁ = e₂ :=
   injE S _ htok hcode hcls (table_complete C08_name_table.1 S hS) e₁ e₂ h₁ h₂ h
 
+/-- non-vacuity of `C08_injective_on_table`: most live classes are covered (constant non-exempt prefix, complete
+    token), and the free scheme over the live table satisfies `hS` by definition -/
+example : 250 < (Generated.nameRows.filter (goodRow exemptPrefixes)).length := by decide +kernel
+example : (freeScheme (ruleOf Generated.nameRows)).rules = ruleOf Generated.nameRows := rfl
+
 /-- the exempt group "operation" really contains unseparated pairs (D17 is visible in the table) -/
 theorem C08_operation_group_unseparated :
     ∃ g ∈ Generated.nameGroups, ∃ a ∈ g.2, ∃ b ∈ g.2, a.pfx = "operation" ∧ a.id < b.id ∧
